@@ -3,6 +3,7 @@
 package main
 
 import (
+	"strings"
 	"flag"
 	"fmt"
 	"os"
@@ -36,6 +37,10 @@ func main() {
 			}
 		}
 		os.Exit(rc)
+	case "patterns":
+		for _, id := range props.IDs() {
+			fmt.Println(id, strings.Join(props.PatternsOf(id), " "))
+		}
 	case "mutants":
 		ids := os.Args[2:]
 		if len(ids) == 0 || ids[0] == "all" {
